@@ -640,6 +640,23 @@ def wave9_rules(ctx):
                           witness=None if not bad else "{{ (a ? b : c) + 1 }}: the paths read by the condition are not part of the guard"))
     if k < 20:
         obs.append(ob("C06.floor/sub-path-sites", False, "proc_gen/expr.rs", "only %d sub-path hand-overs found (floor 20)" % k))
+    # (1b) a list of collected sub-paths only grows: nothing empties or shortens it between collection and the guard
+    shrunk = []
+    for f in tc.fns:
+        if not f.body or f.module[:2] != ["proc_gen", "expr"]:
+            continue
+        lists = set(q.get("pat", {}).get("name") for q in f.params if not q.get("self") and "Vec<PathSliceList>" in (q.get("ty") or "").replace(" ", ""))
+        for n in sir.walk(f.body):
+            if n.get("k") == "local" and n["pat"].get("k") == "p_ident" and n.get("init") is not None and (n["init"].get("k") == "mac" and n["init"].get("name") == "vec" or sir.expr_str(n["init"]).replace(" ", "").endswith(("Vec::new()", "vec![]"))) \
+                    and any(x.get("k") in ("call", "mcall") and (sir.call_name(x) or "").split("::")[-1] in acc_fns and any(sir.expr_str(sir.strip_ref(a)) == n["pat"]["name"] for a in x["args"]) for x in sir.walk(f.body)):
+                lists.add(n["pat"]["name"])
+        for n in sir.walk(f.body, into_closures=True):
+            if n.get("k") == "mcall" and n["m"] in ("clear", "truncate", "pop", "drain", "retain", "remove", "swap_remove", "split_off", "dedup") and sir.expr_str(sir.strip_ref(n["recv"])) in lists:
+                shrunk.append("%s calls `%s.%s()`" % (f.name, sir.expr_str(sir.strip_ref(n["recv"])), n["m"]))
+            if n.get("k") == "assign" and sir.expr_str(n["l"]).lstrip("*") in lists:
+                shrunk.append("%s re-assigns `%s`" % (f.name, sir.expr_str(n["l"])))
+    obs.append(ob("C06.paths/sub-paths-grow-only", not shrunk, "proc_gen/expr.rs", "; ".join(shrunk[:2]) if shrunk else "the sub-path lists are only appended to",
+                  witness=None if not shrunk else "{{ list[idx] }}: the guard loses `U.idx`, a change of the index alone updates nothing"))
     # (2) an array literal's path entry is positional: every kind of element, holes included, contributes one entry
     k = 0
     for f in tc.fns:
@@ -722,6 +739,9 @@ def wave9_rules(ctx):
     from rules.c07 import dynamic_rule, values_rule
     obs += relabel(dynamic_rule(ctx), "C07.dynamic/counter", "C06.fastpath/dynamic/counter")
     obs += relabel(values_rule(ctx), "C07.values", "C06.fastpath/values")
+    # wave 10: an include anywhere below the root switches the whole binding map off (shared with C07.dynamic/include-anywhere)
+    from rules.c07 import wave8_rules as c07_w8
+    obs += relabel(c07_w8(ctx), "C07.dynamic/include-anywhere", "C06.fastpath/dynamic/include-anywhere")
     return obs
 
 
